@@ -154,6 +154,11 @@ func validateModel(doc []byte, toks []tok) error {
 var scalars = []string{"1", `"a"`, "null", "true", "-1.5e3", `"\n"`, `""`, "false", "0", `"éé😀"`, "18446744073709551615", "-9223372036854775808", "18446744073709551616", "-9223372036854775809", "-0", "123456789012345678901234567890", "0.1e-2", "1E5"}
 
 // genValue builds one document from explorer choices. width bounds the number of members.
+// gapMarker stands for insignificant white space; validDocs substitutes every white space form for it.
+const gapMarker = 0x01
+
+var gapForms = []string{" ", "\t", "\n", "\r", "\r\n", " \t\r\n "}
+
 func genValue(c *explore.Ctx, depth, width int, sp bool, b *strings.Builder) {
 	nScal := len(scalars)
 	if depth < 2 {
@@ -166,7 +171,7 @@ func genValue(c *explore.Ctx, depth, width int, sp bool, b *strings.Builder) {
 	k := c.Choose(kinds)
 	gap := func() {
 		if sp {
-			b.WriteByte(' ')
+			b.WriteByte(gapMarker)
 		}
 	}
 	if k < nScal {
@@ -391,7 +396,19 @@ func validDocs(c *explore.Ctx) {
 	}
 	genValue(c, depth, width, sp, &b)
 	doc := []byte(b.String())
-	checkValid(c, doc, "fresh")
+	if sp {
+		// every form of insignificant white space in every gap, also before and after the document
+		tmpl := "\x01" + b.String() + "\x01"
+		var n int64
+		for _, ws := range gapForms {
+			doc = []byte(strings.ReplaceAll(tmpl, "\x01", ws))
+			checkValid(c, doc, "fresh")
+			n++
+		}
+		c.Inner(n)
+	} else {
+		checkValid(c, doc, "fresh")
+	}
 	c.NontrivialBytes(doc)
 	c.Outcome(fmt.Sprintf("nested=%v", bytes.ContainsAny(doc, "[{")))
 	if c.WantSample() || c.Failed() {
@@ -524,7 +541,7 @@ func Spec() *explore.Spec {
 					return 1500
 				}
 				return 0
-			}, Doc: "every document of a grammar with nesting depth <= 2 and <= 2 members per container (thorough: 3 members), 18 scalars, empty containers inside non-empty ones x {no white space, a space in every gap}: token-by-token equality with a reference model (validated against encoding/json's Token stream on every document): Value, Delim, Depth/Index/IsKey of scalars and opening delimiters, in-place Values, Kind, String/Int/Uint/Float/Bool, RawValue predicates, Unquote/AppendUnquote, concatenation == Compact"},
+			}, Doc: "every document of a grammar with nesting depth <= 2 and <= 2 members per container (thorough: 3 members), 18 scalars, empty containers inside non-empty ones x {no white space; each of 6 white space forms (space, tab, LF, CR, CRLF, a mix) in every gap and around the document}: token-by-token equality with a reference model (validated against encoding/json's Token stream on every document): Value, Delim, Depth/Index/IsKey of scalars and opening delimiters, in-place Values, Kind, String/Int/Uint/Float/Bool, RawValue predicates, Unquote/AppendUnquote, concatenation == Compact"},
 			{Name: "arbitrary", ShardDepth: 2, Body: arbitrary, Doc: "all byte strings of length 2..5 (6) over a 24-byte class alphabet: termination, no panic, error stickiness, Reset after error; valid ones checked against the model"},
 			{Name: "histories", ShardDepth: 2, Body: histories, Doc: "all sequences of up to 3 uses of one Tokenizer via Reset over 7 documents x {iterate to the end, abandon after 3 or 7 tokens, abandon while another tokenizer holds a pooled stack} followed by a full tokenisation compared with the model (reused and fresh tokenizer)"},
 		},
